@@ -1,6 +1,6 @@
 SPECIFICATION Spec
 CONSTANTS MaxDepth = 3
-  Families <- FamT_F2
+  Families <- FamNew
   StoreByCopy = TRUE
   TailKeepsSets = TRUE
   SplitContinues = TRUE
